@@ -1769,6 +1769,20 @@ func (s *PrintCtx) appendTerminalSafe(val string) {
 }
 
 func (s *PrintCtx) appendStringSlice(val []string) {
+	if s.noColor && !s.jsonMode {
+		// logfmt: a bare value ends at the first blank, so the list
+		// goes out as one quoted value, like any other text.
+		from := len(s.buf)
+		s.appendStringList(val)
+		txt := string(s.buf[from:])
+		s.buf = s.buf[:from]
+		s.appendQuotedString(txt)
+		return
+	}
+	s.appendStringList(val)
+}
+
+func (s *PrintCtx) appendStringList(val []string) {
 	s.buf = append(s.buf, '[')
 	if l := len(val); l > 0 {
 		s.appendQuotedString(val[0])
